@@ -97,6 +97,23 @@ PROPS = {
                         "by the theorems, which quantify over all type ids, but not by the correspondence run)"],
         "timeout": 3600,
     },
+    "C02": {
+        "property_module": "AutosarVerif.Properties.C02",
+        "modules": ["AutosarVerif.Properties.C02"],
+        "closure": ["AutosarVerif.Properties.C02", "AutosarVerif.Lemmas.Lexer"],
+        "scenario": "c02",
+        "rule": "inputs: every string up to length 5 (thorough: 6) over the 16-symbol XML token alphabet `<>/?!-=\"'&;#x space newline A`; "
+                "token strings after a valid xml header, inside a valid AUTOSAR root element and inside `<?xml … ?>`; a valid document, "
+                "all of its truncations and 1-3 structure-aware mutations of it (delete/insert token/overwrite/cut/duplicate/truncate); "
+                "random bytes and invalid UTF-8; byte-order-mark variants; nesting 10-300 deep in process and 20 000 / 200 000 deep in a "
+                "child process. Each input through load_buffer strict and lenient and check_buffer with catch_unwind and a 10 s watchdog. "
+                "`load <strict> <hex>` compares the tokenizer outcome (error kind and line, or none) with the Lean lexer model; parser "
+                "errors are answered `*` by the harness (not modelled yet). Non-trivial = non-empty input, distinct request line.",
+        "trusted_base": ["hand model of lexer.rs, tied by the correspondence run on tokenizer errors (kind and line)",
+                         "parser.rs is not modelled: for it the run is an oracle search on the real code only"],
+        "assumptions": ["stack exhaustion, allocation failure and real-time behaviour are outside the model; the watchdog limit is 10 s per input"],
+        "timeout": 3600,
+    },
     "C20": {
         "property_module": "AutosarVerif.Properties.C20",
         "modules": ["AutosarVerif.Properties.C20"],
